@@ -1,6 +1,6 @@
 # executed by tools_manifest.py
 PENDING.update({k: 'check not built yet in this commit (claimed in DESIGN.md section 4; will move to checks when its machinery lands)'
-                for k in ['C01', 'C10', 'C11', 'C12', 'C13', 'C17']})
+                for k in ['C01', 'C10', 'C11', 'C12', 'C17']})
 
 check('C09', 'fault_enumeration',
       'For every sampled experiment configuration the complete single-crash space (after every mutating file-system effect x every '
@@ -47,3 +47,13 @@ check('C08', 'exploration',
       'not compared, shuffled_clients on an empty view is not called.',
       'deterministic simulation: seeded history machine with an interleaving scheduler over lazy iterator tasks; operation-by-operation comparison with a reference model',
       'DESIGN.md 2.4, 4 (C08)')
+
+check('C13', 'exploration',
+      'Seeded histories over the real samplers: sample / set_round_num (forward, backward, repeated, huge) / restart with '
+      'start_round_num=r / several sampler objects interleaved / noise on the global numpy and python RNGs between operations, on '
+      'in-memory and SQLite datasets whose ids carry trailing zero bytes; plus streaming samplers restarted at round r over fresh, really '
+      'shuffled seeded streams. Oracle: a round -> (ids, dataset contents, keys) table filled at first observation that every later '
+      'observation must match, with the within-round clauses (no repeat, exact ids, cohort size, distinct keys, keys differ across rounds).',
+      'Sampling over datasets, seeds and histories; restart is modelled as a fresh sampler object on the same data.',
+      'deterministic simulation: seeded history machine with restarts and injected global-RNG interference; first-observation table as the reference model',
+      'DESIGN.md 4 (C13)')
